@@ -94,11 +94,32 @@ def group_of(x):
     return "other"
 
 
+def _has_tgt(spec):
+    if isinstance(spec, dict):
+        return spec.get("t") == "tgt" or _has_tgt(spec.get("v"))
+    if isinstance(spec, list):
+        return any(_has_tgt(e) for e in spec)
+    return False
+
+
+def _decode_for(spec, T, tname):
+    """codec.decode, with {"t": "tgt", "v": pairs} standing for an INSTANCE of the target data class (a plain dict for other targets)"""
+    if not _has_tgt(spec):
+        return codec.decode(spec)
+    if spec.get("t") == "tgt":
+        d = {k: codec.decode(v) for k, v in spec["v"]}
+        return T(**d) if tname == "data" else d
+    if spec.get("t") in ("list", "tuple"):
+        items = [_decode_for(e, T, tname) for e in spec["v"]]
+        return items if spec["t"] == "list" else tuple(items)
+    raise HarnessError("target instances only inside lists / tuples")
+
+
 def run_one(x_spec, tname, flags, entry):
     import utype
     opts = entries.make_options(flags)
     T = target_type(tname, flags)
-    x = codec.decode(x_spec)
+    x = _decode_for(x_spec, T, tname)
     if entry == "transform":
         return oracle.reject_raw(oracle.outcome(utype.type_transform, x, T, opts))
     ns = {"__annotations__": {"v": T}, "__module__": "vf.entries", "__qualname__": "E12"}
@@ -143,6 +164,8 @@ def ndl_promises(x, tname, r):
     if tname in SCALAR_TARGETS and isinstance(x, (list, tuple, set, frozenset)) and len(x) > 1:
         if not (tname == "complex" and isinstance(x, tuple) and len(x) == 2):   # (re, im) pair: nothing is dropped
             return "multi-element-collection-collapsed-to-scalar"
+    if tname == "data" and isinstance(x, (list, tuple)) and len(x) > 1:
+        return "multi-element-collection-collapsed-to-one-object"
     if tname in ("int", "sub:int"):
         if isinstance(x, (int, float, decimal.Decimal, str, bytes, bytearray)) and not isinstance(x, bool):
             f = _as_fraction(x)
@@ -268,7 +291,7 @@ def judge_pair(x_spec, tname, entry):
     info = {"accepted": {k: v[0] == "ok" for k, v in res.items()}}
     if any(v[0] in ("other", "hang") for v in res.values()):
         info["other"] = True
-    x = codec.decode(x_spec)
+    x = _decode_for(x_spec, None, "plain")
     for fname in ("ne", "ndl", "both"):
         o = res[fname]
         if o[0] != "ok":
@@ -312,7 +335,7 @@ def run_case(case):
         raise HarnessError("malformed case")
     if tname not in TARGETS or entry not in ("transform", "schema"):
         raise HarnessError("bad target/entry")
-    codec.decode(x_spec)
+    _decode_for(x_spec, None, "plain")
     if _unordered_unstable(x_spec):
         # a set holding NaN or plain objects iterates in an order that differs between two decodes of the same spec
         return [], {"accepted": {k: False for k in ("none", "ne", "ndl", "both")}, "unstable_source": True}
@@ -367,6 +390,11 @@ TABLE = [
     {"t": "enum", "e": "Color", "m": "RED"}, {"t": "enum", "e": "Num", "m": "ONE"}, {"t": "enum", "e": "Plain", "m": "A"}, {"t": "enum", "e": "Plain", "m": "B"},
     {"t": "sub", "b": "int", "v": 1}, {"t": "sub", "b": "str", "v": "1"}, {"t": "sub", "b": "float", "v": F("1.5")},
     {"t": "sub", "b": "list", "v": {"t": "list", "v": [1]}}, {"t": "obj"}, {"t": "cls", "v": "int"},
+    # instances of the target data class itself (plain dicts for the other targets), alone and in collections
+    {"t": "tgt", "v": [["a", 1], ["b", "x"]]}, {"t": "list", "v": [{"t": "tgt", "v": [["a", 1]]}]},
+    {"t": "list", "v": [{"t": "tgt", "v": [["a", 1]]}, {"t": "tgt", "v": [["a", 2], ["b", "y"]]}]},
+    {"t": "tuple", "v": [{"t": "tgt", "v": [["a", 1]]}, {"t": "dict", "v": [["a", 2]]}, 3]},
+    {"t": "list", "v": [{"t": "dict", "v": [["a", 1]]}, {"t": "dict", "v": [["a", 2]]}]},
 ]
 
 
